@@ -4,9 +4,9 @@
 # existing suite green, (c) makes its demo fail, and (d) the demo passes without it.  On success stores it
 # under /verif/seeded/<PID>-<k>/ with meta.json.
 PID=$1; K=$2
-SRC=/tmp/mut/out/$PID/$K
-WT=/tmp/mut/$PID
-DEST=/verif/seeded/$PID-$K
+ROUND=${ROUND:-}
+if [ -n "$ROUND" ]; then SRC=/tmp/mut/out$ROUND/$PID/$K; WT=/tmp/mut/${PID}r$ROUND; DEST=/verif/seeded/$PID-r$ROUND-$K;
+else SRC=/tmp/mut/out/$PID/$K; WT=/tmp/mut/$PID; DEST=/verif/seeded/$PID-$K; fi
 set -u
 [ -f $SRC/patch.diff ] || { echo "no patch $SRC"; exit 2; }
 FEAT=$(python3 -c "import json;print(json.load(open('$SRC/meta.json')).get('features','') or '')" 2>/dev/null)
